@@ -116,7 +116,7 @@ func (c *CroltSimple) Schedule(ctx *core.Context, work *ScheduledWork) error {
 	}
 
 	job := CroltJob{
-		Schedule: work.Schedule,
+		Schedule: croltSchedule(work.Schedule),
 		Account:  work.Tag,
 		Id:       id,
 		URL:      work.URL,
@@ -155,6 +155,16 @@ func (c *CroltSimple) Schedule(ctx *core.Context, work *ScheduledWork) error {
 	}
 
 	return nil
+}
+
+// croltSchedule writes a schedule the way crolt wants it: an absolute
+// time is just the time there (no "!" in front of it).
+func croltSchedule(schedule string) string {
+	schedule = strings.TrimSpace(schedule)
+	if strings.HasPrefix(schedule, "!") {
+		return schedule[1:]
+	}
+	return schedule
 }
 
 // croltProblem turns an answer that says crolt did not do what we
